@@ -1,6 +1,7 @@
 package main
 
 import (
+	"sort"
 	"fmt"
 	"go/ast"
 	"go/constant"
@@ -24,6 +25,7 @@ type specCtx struct {
 	scope   ast.Node
 	nolocals bool
 	loopEntry *Env     // state at entry of the loop whose invariant is being evaluated (for atentry(x))
+	inOld    int       // >0 while evaluating inside old(...)
 	innerPos token.Pos // actual position of the call inside inlined closures (for inner(x))
 }
 
@@ -466,6 +468,7 @@ func (f *FuncCtx) newRef(ptrT types.Type, init Val, env *Env) Val {
 	srt := f.S.SortOf(ptrT)
 	r := f.fresh("ref", srt)
 	f.emit(fmt.Sprintf("(assert (not (= %s nil_%s)))", r, srt))
+	f.freshFacts(r, srt, env)
 	f.allocs[srt] = append(f.allocs[srt], r)
 	dsrt, _, isDT := f.S.isDatatypeStruct(el)
 	for i := 0; i < st.NumFields(); i++ {
@@ -483,6 +486,54 @@ func (f *FuncCtx) newRef(ptrT types.Type, init Val, env *Env) Val {
 		env.heap[h] = f.define("H", fmt.Sprintf("(Array %s %s)", srt, f.S.SortOf(fl.Type())), env.heap[h])
 	}
 	return Val{T: r, Typ: ptrT}
+}
+
+// freshFacts states that a newly allocated reference is not stored anywhere in the state that exists at the
+// allocation: earlier allocations, local variables (directly, as slice element or as map value) and the
+// entry heap. Only true facts are added; anything deeper is left unconstrained (a weaker, still sound, model).
+func (f *FuncCtx) freshFacts(r, srt string, env *Env) {
+	if f.spec != nil {
+		return
+	}
+	for _, a := range f.allocs[srt] {
+		f.emit(fmt.Sprintf("(assert (not (= %s %s)))", r, a))
+	}
+	var objs []types.Object
+	for o := range env.vars {
+		objs = append(objs, o)
+	}
+	sort.Slice(objs, func(i, j int) bool { return objs[i].Pos() < objs[j].Pos() })
+	for _, o := range objs {
+		v := env.vars[o]
+		if v.Clo != nil || v.Typ == nil || v.T == "" {
+			continue
+		}
+		switch u := v.Typ.Underlying().(type) {
+		case *types.Pointer:
+			if f.S.SortOf(v.Typ) == srt {
+				f.emit(fmt.Sprintf("(assert (not (= %s %s)))", r, v.T))
+			}
+		case *types.Slice:
+			if _, isP := u.Elem().Underlying().(*types.Pointer); isP && f.S.SortOf(u.Elem()) == srt {
+				f.emit(fmt.Sprintf("(assert (forall ((i!f Int)) (! (not (= (select (s_arr %s) i!f) %s)) :pattern ((select (s_arr %s) i!f)))))", v.T, r, v.T))
+			}
+		case *types.Map:
+			if _, isP := u.Elem().Underlying().(*types.Pointer); isP && f.S.SortOf(u.Elem()) == srt {
+				ks := f.S.SortOf(u.Key())
+				f.emit(fmt.Sprintf("(assert (forall ((k!f %s)) (! (not (= (select (m_val %s) k!f) %s)) :pattern ((select (m_val %s) k!f)))))", ks, v.T, r, v.T))
+			}
+		}
+	}
+	var hs []string
+	for h := range f.heap0 {
+		hs = append(hs, h)
+	}
+	sort.Strings(hs)
+	for _, h := range hs {
+		if f.heapSort[h][1] == srt {
+			f.emit(fmt.Sprintf("(assert (forall ((r!f %s)) (! (not (= (select %s r!f) %s)) :pattern ((select %s r!f)))))", f.heapSort[h][0], f.heap0[h], r, f.heap0[h]))
+		}
+	}
 }
 
 // loadStruct reads the struct value behind a reference (datatype structs only).
